@@ -21,6 +21,13 @@ def run(tier, only=None):
     joins = [p for p in f03.programs(tier) if ".merge(" in p.text]
     progs += f01.select(joins, "quick", seed() + 7, 150 if tier == "quick" else 2000)
     results, info = pfam.run(progs, prun.check_idempotent, only)
+    # nested optimize(): every head collection optimised first, the continuation built on the optimised collection
+    from .. import pcut
+    from ..common import match_only
+
+    cfgs = pcut.configs(tier, cuts=("optimize", "optimize-nofuse"))
+    cfgs = [c for c in cfgs if match_only(only, pcut._name(c), c["htag"])]
+    results += prun.run_programs(cfgs, pcut.check)
     krs, kinfo = kcollect.run("C19", tier, only)
     results += krs
     if not only or "hashseed" in only:
